@@ -349,7 +349,7 @@ func c06Shrink(raw json.RawMessage) []json.RawMessage {
 func init() {
 	Register(&Check{
 		ID: "C06", Level: "exploration", Isolation: 30,
-		QuickRuns: 4500, ThoroughRuns: 300000,
+		QuickRuns: 10000, ThoroughRuns: 300000,
 		Gen: c06Gen, Exec: c06Exec, Shrink: c06Shrink,
 		Rule: "one case = one session of 2-6 dice-using commands (in a third of the cases the session has an embedding program: a custom dice syntax whose callback returns a value, an error, nil, re-enters the VM, panics, or rolls on the context generator, per a seeded plan; every dice family, modifiers, sub-VM paths through functions / computed values / DefaultDiceSideExpr / RunExpr, random array methods) on a context seeded from given bytes, executed in a quiet world, in 2 noisy worlds (other seeded and unseeded VMs, direct draws on the package-level PCG source and on the x/exp/rand global, both reseeded = clock jump, observation bursts between commands) and resumed at EVERY command boundary from GetCurSeed() into a fresh context with deep-copied variables. Oracles: identical outcomes (value, detail text, generator bytes, ...) across worlds and after resume; ledger: every die of the seeded context was drawn from its own source; neither package-level generator advanced during its commands. distinct = distinct command lists; non-trivial = at least 2 dice in the ledger",
 		Real: []string{"dicescript VM, roll functions, array methods, GetCurSeed/Init seeding"},
